@@ -173,6 +173,7 @@ static ssize_t vp_io_pread(int fd, void *buf, size_t n, off_t off)
 	return r;
 }
 /* mmap: one live mapping at a time is enough for the file-segment code */
+static char vp_map_failed_obj;
 static unsigned char *vp_map_addr; static size_t vp_map_len; static int vp_mmap_calls, vp_munmap_calls;
 static int vp_mmap_mode = -1;     /* -1: success/failure solver-chosen per call, 0: succeeds, 1: fails (ENOMEM) */
 static unsigned char *vp_io_exact(size_t k)
@@ -200,7 +201,14 @@ static void *vp_io_mmap(void *addr, size_t len, int prot, int flags, int fd, off
 	VP_ASSERT(addr == NULL && prot == PROT_READ, "harness: unexpected mmap arguments");
 	VP_ASSERT(len > 0, "C15: mmap of length 0 (EINVAL)");
 	VP_ASSERT(off >= 0 && off % vp_pagesize == 0, "C15: mmap offset is not a multiple of the page size (EINVAL)");
-	if (vp_mmap_mode == 1 || (vp_mmap_mode < 0 && vp_bool())) { errno = ENOMEM; return MAP_FAILED; }
+	if (vp_mmap_mode == 1 || (vp_mmap_mode < 0 && vp_bool())) {
+		errno = ENOMEM;
+#ifdef VP_CBMC
+		return (void *)&vp_map_failed_obj;
+#else
+		return MAP_FAILED;
+#endif
+	}
 	VP_ASSERT(vp_map_addr == NULL, "harness bound: second live mapping");
 	p = vp_io_exact(len);
 	for (j = 0; j < 24; j++)
@@ -219,6 +227,12 @@ static int vp_io_munmap(void *addr, size_t len)
 static long vp_io_sysconf(int name) { (void)name; return vp_pagesize; }
 static int vp_io_close(int fd) { vp_close_calls++; vp_close_fd = fd; return 0; }
 
+#ifdef VP_CBMC
+/* MAP_FAILED is an opaque sentinel; as the integer address (void *)-1 symex cannot decide `mapped == MAP_FAILED` for a
+ * heap object and walks both outcomes of every mmap.  The address of a dedicated object is decided syntactically. */
+#undef MAP_FAILED
+#define MAP_FAILED ((void *)&vp_map_failed_obj)
+#endif
 #define ioctl(fd, req, arg)     vp_io_ioctl((fd), (req), (arg))
 #define read(fd, b, n)          vp_io_read((fd), (b), (n))
 #define readv(fd, v, n)         vp_io_readv((fd), (v), (n))
